@@ -171,6 +171,15 @@ def rule_whitenscale(ctx):
             if y.get("k") == "Ret" and y.get("e") is not None and (y.get("ln") or 0) < (wh.get("ln") or 0) and any(z.get("k") == "Struct" for z in walk(y["e"])):
                 early = y
         if early is not None:
+            # a special case that looks at the whitening switch itself (scales its own components, or is only taken without
+            # whitening) does not ignore the request
+            from .layout import with_parents as _wp
+            for y, anc in _wp(fn["body"]):
+                if y is early:
+                    guards = [a for a in anc if a.get("k") == "If"]
+                    if any(z.get("k") == "Field" and z["name"] == "apply_whitening" for g_ in guards for z in walk(g_)):
+                        early = None
+        if early is not None:
             res.violate("%s : model-returned-before-whitening" % key, "`%s` builds and returns the model before the `if self.apply_whitening` block: on that path a whitening request is ignored and the projected training data does not have unit variance" % r.e(early)[:50], fn_loc(fn, early.get("ln")))
             continue
         seen, calls, stack = set(), [], [wh["then"]]
